@@ -65,6 +65,8 @@ structure Layer where
 structure Obj where
   layers : List Layer
   assertsChecked : Bool
+  /-- the asserts are being evaluated (`State::ObjectAssertsInProgress` is on the stack) -/
+  assertsInProgress : Bool := false
 
 structure Func where
   params : List (String × OptExpr)
@@ -668,7 +670,8 @@ def step : Task → M Value
   | .asserts o d => do
     let ob ← getObj o
     if ob.assertsChecked then return .null
-    setObj o { ob with assertsChecked := true }
+    let hasAsserts := ob.layers.any (fun l => !l.asserts.isEmpty)
+    setObj o { ob with assertsChecked := true, assertsInProgress := hasAsserts }
     -- self layer first, then the super layers from the top down
     for (li, layer) in ob.layers.zipIdx.map (fun p => (p.2, p.1)) do
       for (c, m) in layer.asserts do
@@ -683,6 +686,8 @@ def step : Task → M Value
             let mv ← rec (.eval me env false d)
             throw (.rt "AssertFailed" (← coerceToString rec mv d))
         | v => throw (.rt "CondIsNotBool" (typeName v))
+    let ob ← getObj o
+    setObj o { ob with assertsInProgress := false }
     pure .null
   | .deep v d => do
     match v with
@@ -1096,7 +1101,11 @@ def run (cfg : Cfg) : Nat → Task → M Value
 
 /-- `Evaluator::eval` failing: thunks still in progress go back to pending. -/
 def restoreInProgress (st : St) : St :=
-  { st with thunks := st.thunks.map (fun s => match s with | .inProgress p => .pending p | s => s) }
+  { st with
+    thunks := st.thunks.map (fun s => match s with | .inProgress p => .pending p | s => s)
+    -- asserts that did not all pass are checked again next time
+    objs := st.objs.map (fun o =>
+      if o.assertsInProgress then { o with assertsChecked := false, assertsInProgress := false } else o) }
 
 def showErr : Err → String
   | .stackOverflow => "err eval StackOverflow -"
